@@ -299,12 +299,16 @@ impl MT107 {
         if trimmed.starts_with(":50C:") {
             let instructing_party =
                 parser.parse_optional_variant_field::<Field50InstructingParty>("50")?;
-            return Ok((instructing_party, None));
+            // The creditor (option A or K) may follow the instructing party
+            let creditor = parser.parse_optional_variant_field::<Field50Creditor>("50")?;
+            return Ok((instructing_party, creditor));
         }
         if trimmed.starts_with(":50L:") {
             let instructing_party =
                 parser.parse_optional_variant_field::<Field50InstructingParty>("50")?;
-            return Ok((instructing_party, None));
+            // The creditor (option A or K) may follow the instructing party
+            let creditor = parser.parse_optional_variant_field::<Field50Creditor>("50")?;
+            return Ok((instructing_party, creditor));
         }
 
         // Check for creditor variants (A, K)
